@@ -274,3 +274,21 @@ class UpdateAndPack:
 
     def ensures_later_overrides_win_and_are_recorded(o1, v1, o2, n2, result):
         return le(result[1], o1, 4) == v1 and le(result[1], o2, 2) == n2 and result[2] == v1 and result[3] == n2
+
+
+# ---- option isolation as a frame property: boot() leaves its arguments and its own default arguments unchanged, and does not
+# ---- modify anything it takes out of module-level state (e.g. parsed struct definitions kept between calls) ------------------
+from pyvc.spec import frame   # noqa: E402
+
+
+@frame("rig/machine_control/boot.py::boot")
+class BootFrame:
+    properties = ("C20",)
+    globals_unchanged = True
+    assumptions = ["files, sockets and the clock are library objects: their methods are taken to affect nothing but the outside world"]
+
+
+@frame("rig/machine_control/struct_file.py::read_struct_file")
+class ReadStructFileFrame:
+    properties = ("C20",)
+    globals_unchanged = True
